@@ -35,7 +35,9 @@ func main() {
 		"non-trivial = a history with a successful handshake and at least one refused call; " +
 		"Close under a fault on every client kind (stdio: the child was killed and reaped first, so the transport's close() reports an error; streamable / legacy SSE: the server is gone while Close runs; " +
 		"legacy SSE: the server ended the event stream first): 7-12 fixed histories per environment (handshake, faulted Close, every operation, new handshake; double Close; Close on a fresh client; with RestartProcess / TerminateSession / SendInitialized) " +
-		"and seeded random ones; the Close event of the model line carries whether the transport's close() reported an error",
+		"and seeded random ones; the Close event of the model line carries whether the transport's close() reported an error; " +
+		"malformed answers to initialize (both result and error, error / result of a wrong type, neither, null / empty result, missing / unsupported version, wrong id, silence, a notification instead, invalid JSON, wrong jsonrpc member: " +
+		"26 scenarios x {streamable JSON, streamable SSE-framed, legacy SSE, stdio}), each followed by every kind of operation and a good handshake, repeated, around Close, and mixed into seeded random histories",
 		Run: run})
 }
 
@@ -64,5 +66,8 @@ func run(c *hk.Ctx) {
 	t0 = time.Now()
 	runCloseFaultPhase(c)
 	timing["close_fault_s"] = time.Since(t0).Seconds()
+	t0 = time.Now()
+	runMalformedPhase(c)
+	timing["malformed_answer_s"] = time.Since(t0).Seconds()
 	c.SetExtra("timing", timing)
 }
